@@ -2,6 +2,7 @@ package props
 
 import (
 	"fmt"
+	"sort"
 	"strings"
 
 	"github.com/trustbloc/sidetree-core-go/pkg/api/operation"
@@ -26,7 +27,7 @@ func c02(r *hx.Run) {
 	fx.Quiet()
 	client, v := stdClient()
 	delta := v.P.MaxOperationTimeDelta
-	r.Rule = "for every competition shape (forks of one update/recovery commitment, several creates, deactivate vs recover, replays, published vs unpublished twins), every injective assignment of (time, number) coordinates from the grid (non-monotone numbers included) and EVERY permutation of the store's return order (and both arrival paths of unpublished operations), resolve on the real processor; all permutations must agree and equal ref/sidetree ordered by (time, number), published first; metadata operation lists must come out in that order. Non-trivial: at least two operations compete for one commitment / create slot and the assignment is not already in store order."
+	r.Rule = "for every competition shape (forks of one update/recovery commitment, several creates, deactivate vs recover, replays, published vs unpublished twins), every injective assignment of (time, number) coordinates from the grid (non-monotone numbers included) and EVERY permutation of the store's return order (and both arrival paths of unpublished operations), resolve on the real processor; all permutations must agree and equal ref/sidetree ordered by (time, number), published first; metadata operation lists must come out in that order; histories of 13 and 16 operations (three- and four-way competitions, both chains, duplicate creates) on 18 structured coordinate assignments x 18-21 structured store orders (all rotations, reversal, strides, sorted ascending / descending) - long enough to leave the insertion-sort regime of the library's sort. Non-trivial: at least two operations compete for one commitment / create slot and the assignment is not already in store order."
 	g9 := []Coord{}
 	for t := uint64(1); t <= 3; t++ {
 		for n := uint64(0); n <= 2; n++ {
@@ -56,6 +57,8 @@ func c02(r *hx.Run) {
 		{[]string{"C", "R01", "R01b/u", "V01/u"}, g6, true},
 		{[]string{"C", "U01", "U10", "U12"}, g6, true}, // U10 re-commits to a consumed commitment: it must be skipped, not block U12
 		{[]string{"C", "R01", "R10", "R12"}, g6, true},
+		{[]string{"C", "U01", "U01b", "U01i"}, g6, true}, // three operations compete for one commitment
+		{[]string{"C", "R01", "R01b", "D0"}, g6, true},
 		{[]string{"C", "U01", "U01b", "U12", "U1b2"}, g4[:4], false},
 	}
 	if r.Tier == "thorough" {
@@ -66,6 +69,8 @@ func c02(r *hx.Run) {
 			c02Shape{[]string{"C", "U01", "U01b", "U12"}, g9, true},
 			c02Shape{[]string{"C", "R01", "R01b", "V01"}, g9, true},
 			c02Shape{[]string{"C", "C~h", "U01", "U01b", "R01", "R01b"}, g6, false},
+			c02Shape{[]string{"C", "U01", "U01b", "U01i", "U01~p"}, g6, true}, // four-way competition
+			c02Shape{[]string{"C", "R01", "R01b", "D0", "R01~a"}, g6, true},
 		)
 	}
 	pool := fx.NewPool(fx.Ed25519, fx.SHA256, "ok")
@@ -216,6 +221,93 @@ func c02(r *hx.Run) {
 			r.Sample(map[string]interface{}{"placed": placedDesc(placed), "winner": model.Abstract()})
 		})
 	}
+	// ---- long histories (13 and 16 operations: beyond the size below which the library's sort is an insertion sort), structured
+	// coordinate assignments x structured store orders (rotations, reversal, strides)
+	longOps := []string{"C", "C~h", "U01", "U01b", "U01i", "U12", "U1b2", "U23", "R01", "R01b", "D1", "V01", "W01", "U01~p", "R01~a", "D0"}
+	var g18 []Coord
+	for t := uint64(1); t <= 6; t++ {
+		for n := uint64(0); n <= 2; n++ {
+			g18 = append(g18, Coord{t, n})
+		}
+	}
+	type longJob struct {
+		n, stride, offset int
+	}
+	var longJobs []longJob
+	for _, n := range []int{13, 16} {
+		for _, stride := range []int{1, 5, 7, 11, 13, 17} { // coprime with 18: injective walks over the grid
+			for _, offset := range []int{0, 4, 9} {
+				longJobs = append(longJobs, longJob{n, stride, offset})
+			}
+		}
+	}
+	hx.ParallelFor(len(longJobs), func(ji int) {
+		j := longJobs[ji]
+		placed := make([]fx.Placed, j.n)
+		for i := 0; i < j.n; i++ {
+			placed[i] = c02Place(pool, longOps[i], g18[(j.offset+i*j.stride)%18])
+		}
+		st, merr := ResolveModel(placed, nil, delta)
+		model := ProjectModel(st, merr)
+		r.State()
+		key := fmt.Sprintf("long|n=%d|stride=%d|offset=%d", j.n, j.stride, j.offset)
+		r.Nontrivial(key)
+		r.Outcome("long:" + model.Abstract())
+		var orders [][]int
+		for rot := 0; rot < j.n; rot++ {
+			o := make([]int, j.n)
+			for i := range o {
+				o[i] = (i + rot) % j.n
+			}
+			orders = append(orders, o)
+		}
+		rev := make([]int, j.n)
+		for i := range rev {
+			rev[i] = j.n - 1 - i
+		}
+		orders = append(orders, rev)
+		for _, st := range []int{3, 5, 7} { // coprime with 13 and 16
+			o := make([]int, j.n)
+			for i := range o {
+				o[i] = (i * st) % j.n
+			}
+			orders = append(orders, o)
+		}
+		// sorted by (time, number) ascending and descending
+		asc := make([]int, j.n)
+		for i := range asc {
+			asc[i] = i
+		}
+		sort.Slice(asc, func(a, b int) bool {
+			pa, pb := placed[asc[a]], placed[asc[b]]
+			return pa.Time < pb.Time || (pa.Time == pb.Time && pa.Num < pb.Num)
+		})
+		desc := make([]int, j.n)
+		for i := range desc {
+			desc[i] = asc[j.n-1-i]
+		}
+		orders = append(orders, asc, desc)
+		for oi, order := range orders {
+			caseID := fmt.Sprintf("%s|order=%d", key, oi)
+			if !r.Want(caseID) {
+				continue
+			}
+			ordered := make([]fx.Placed, j.n)
+			for i, o := range order {
+				ordered[i] = placed[o]
+			}
+			rm, err := c02Resolve(client, pool.Suffix, ordered, 0)
+			got := ProjectImpl(rm, err)
+			r.Eval()
+			r.Trans(1)
+			r.Trace(1)
+			if got != model {
+				r.Violation("order-dependence:long-history:"+diffFields(got, model), caseID,
+					fmt.Sprintf("operations %v returned by the store in order %v\n  impl : %s\n  model: %s", placedDesc(placed), order, got, model),
+					map[string]interface{}{"placed": placedDesc(placed), "order": order})
+			}
+		}
+	})
 	r.Assumptions = append(r.Assumptions,
 		"coordinates of distinct operations are distinct (time, number) pairs as the statement presupposes; unpublished operations carry harness-chosen times",
 		"mode 1 delivers unpublished operations (and a duplicate of one published operation) through WithAdditionalOperations instead of the unpublished store")
